@@ -143,6 +143,7 @@ func (this *Dataset) SizeInfo(ctx context.Context) (uint64, uint64, error) {
 	}()
 
 	for i := 0; i < len(this.partitions); i++ {
+		verifGate("size.collect", i)
 		select {
 		case err := <-errorCh:
 			if err != nil {
@@ -373,6 +374,7 @@ func (this *Dataset) Search(ctx context.Context, query math.Vector, k uint) (ind
 
 	result := make(index.SearchResult, 0, int(k)*len(nodePartitions))
 	for i := 0; i < len(nodePartitions); i++ {
+		verifGate("search.collect", i)
 		select {
 		case items := <-resultCh:
 			result = append(result, items...)
@@ -417,6 +419,7 @@ func (this *Dataset) SearchPartitions(ctx context.Context, partitionIds []uuid.U
 
 	result := make(index.SearchResult, 0, int(k)*len(partitions))
 	for i := 0; i < len(partitions); i++ {
+		verifGate("searchpartitions.collect", i)
 		select {
 		case items := <-resultCh:
 			result = append(result, items...)
